@@ -104,7 +104,7 @@ func checkDoc(c docCase, o *pbt.Rec) pbt.Verdict {
 		return pbt.Bad("accepted document has an out-of-bounds reference: %s (input %s)", bmsg, q(in))
 	}
 	if df := diffShape(c.Exp, shape); df != "" {
-		return verdict(d, kShape, df, "document is parsed to a shape other than the one written (expected vs parsed): %s (input %s)", df, q(in))
+		return verdict(d, kShape, df, "", "document is parsed to a shape other than the one written (expected vs parsed): %s (input %s)", df, q(in))
 	}
 	v, _, _ := checkAccepted(d, in, o, gq)
 	return v
